@@ -67,6 +67,14 @@ def attribute(pid, wd, fail, tag):
     # C09 also states that the messages held for a monitor update come out "in the order the protocol
     # requires": a protocol-order / content rejection of a message released by a completion belongs to it too
     ev = fail["rec"]
+    # C10 promises that in-flight monitor updates are replayed after a restart and nothing is revealed before:
+    # a release-before-durable rejection in a run in which a node was restarted belongs to it as well
+    if groups == {"C09"} and any(e.get("ev") == "crash" for e in fail["run_events"][:fail["pos_in_run"]]):
+        groups.add("C10")
+    # C12: a node re-read from what it wrote reacts to everything that follows like the original; a rejection
+    # after a clean reload (in a run that the original would have passed) belongs to it as well
+    if groups and any(e.get("ev") == "crash" and e.get("reload") for e in fail["run_events"][:fail["pos_in_run"]]):
+        groups.add("C12")
     if ev.get("ev") == "msg" and groups & {"C01", "C05"}:
         prior = fail["run_events"][:fail["pos_in_run"] - 1]
         for e in reversed(prior):
